@@ -54,6 +54,8 @@ def calendar(comps):
 
 SHAPES = ["comp", "comp-undef", "prop-present", "prop-undef", "prop-text", "comp-range", "prop-range",
           "param-present", "param-undef", "param-text", "range+text"]
+# filters whose comp-filter / prop-filter has TWO children (the AND over children, RFC 4791 9.7.1 / 9.7.2)
+SHAPES2 = ["text+range-prop", "range-prop+text", "undef+present", "present+undef", "text&param", "param&text"]
 
 
 def spec(shape, kindf, text, coll, negate, start, end):
@@ -85,6 +87,19 @@ def spec(shape, kindf, text, coll, negate, start, end):
         inner["time_range"] = (start, end)
         pf["text"] = tm
         inner["props"].append(pf)
+    elif shape in SHAPES2:
+        pf2 = {"name": "DTSTART", "is_not_defined": False, "time_range": None, "text": None, "params": []}
+        if shape in ("text+range-prop", "range-prop+text"):
+            pf["text"] = tm
+            pf2["time_range"] = (start, end)
+            inner["props"] += [pf, pf2] if shape == "text+range-prop" else [pf2, pf]
+        elif shape in ("undef+present", "present+undef"):
+            pf["is_not_defined"] = True
+            inner["props"] += [pf, pf2] if shape == "undef+present" else [pf2, pf]
+        else:
+            pf["text"] = tm
+            pf["params"].append({"name": "LANGUAGE", "is_not_defined": False, "text": None})
+            inner["props"].append(pf)
     top = {"name": "VCALENDAR", "is_not_defined": False, "time_range": None, "comps": [inner], "props": []}
     return [top]
 
@@ -116,6 +131,32 @@ def build_api(shape, kindf, text, coll, negate, start, end):
     elif shape == "range+text":
         inner.filter_time_range(mlib.T(start), mlib.T(end))
         inner.filter_property("SUMMARY").filter_text_match(text, collation=c, negate_condition=negate)
+    elif shape in SHAPES2:
+        def p_text():
+            inner.filter_property("SUMMARY").filter_text_match(text, collation=c, negate_condition=negate)
+
+        def p_range():
+            inner.filter_property("DTSTART").filter_time_range(mlib.T(start), mlib.T(end))
+
+        def p_undef():
+            inner.filter_property("SUMMARY", is_not_defined=True)
+
+        def p_present():
+            inner.filter_property("DTSTART")
+
+        order = {"text+range-prop": (p_text, p_range), "range-prop+text": (p_range, p_text),
+                 "undef+present": (p_undef, p_present), "present+undef": (p_present, p_undef)}.get(shape)
+        if order:
+            for fn in order:
+                fn()
+        else:
+            pf_ = inner.filter_property("SUMMARY")
+            if shape == "text&param":
+                pf_.filter_text_match(text, collation=c, negate_condition=negate)
+                pf_.filter_parameter("LANGUAGE")
+            else:
+                pf_.filter_parameter("LANGUAGE")
+                pf_.filter_text_match(text, collation=c, negate_condition=negate)
     return f
 
 
@@ -177,6 +218,32 @@ def build_xml(shape, kindf, text, coll, negate, start, end):
     elif shape == "range+text":
         E(inner, "time-range", start="t0", end="t1")
         tm(E(inner, "prop-filter", name="SUMMARY"))
+    elif shape in SHAPES2:
+        def x_text():
+            tm(E(inner, "prop-filter", name="SUMMARY"))
+
+        def x_range():
+            E(E(inner, "prop-filter", name="DTSTART"), "time-range", start="t0", end="t1")
+
+        def x_undef():
+            E(E(inner, "prop-filter", name="SUMMARY"), "is-not-defined")
+
+        def x_present():
+            E(inner, "prop-filter", name="DTSTART")
+
+        order = {"text+range-prop": (x_text, x_range), "range-prop+text": (x_range, x_text),
+                 "undef+present": (x_undef, x_present), "present+undef": (x_present, x_undef)}.get(shape)
+        if order:
+            for fn in order:
+                fn()
+        else:
+            pfx = E(inner, "prop-filter", name="SUMMARY")
+            if shape == "text&param":
+                tm(pfx)
+                E(pfx, "param-filter", name="LANGUAGE")
+            else:
+                E(pfx, "param-filter", name="LANGUAGE")
+                tm(pfx)
     f = xical.CalendarFilter(None)
     f.tzify = mlib.tzify
     xcal.parse_filter(root, f)
